@@ -179,6 +179,40 @@ func overrides(resource string) []string {
 	return nil
 }
 
+// withPairs adds the union of every two menu entries that mention disjoint parameters.
+func withPairs(menu []string) []string {
+	out := append([]string(nil), menu...)
+	seen := map[string]bool{}
+	for _, m := range menu {
+		seen[m] = true
+	}
+	for i, a := range menu {
+		for _, b := range menu[i+1:] {
+			var ma, mb map[string]json.RawMessage
+			if a == "" || b == "" || json.Unmarshal([]byte(a), &ma) != nil || json.Unmarshal([]byte(b), &mb) != nil || len(ma) == 0 || len(mb) == 0 {
+				continue
+			}
+			disjoint := true
+			for k := range mb {
+				if _, ok := ma[k]; ok {
+					disjoint = false
+				}
+			}
+			if !disjoint {
+				continue
+			}
+			for k, v := range mb {
+				ma[k] = v
+			}
+			if u := js(ma); !seen[u] {
+				seen[u] = true
+				out = append(out, u)
+			}
+		}
+	}
+	return out
+}
+
 // effParams is the meaning of "template parameters overridden by the request
 // parameters": start from the resource defaults, then apply the template's params, then
 // the request's params, field by field — a field that a layer does not mention keeps
@@ -584,23 +618,6 @@ func diagnoseReset(ctx context.Context, s *site, cs *c37Case, eff effParams, qb 
 	return best
 }
 
-func paramKeys(raw string) string {
-	if raw == "" {
-		return "none"
-	}
-	var m map[string]json.RawMessage
-	_ = json.Unmarshal([]byte(raw), &m)
-	var ks []string
-	for k := range m {
-		ks = append(ks, k)
-	}
-	sort.Strings(ks)
-	if len(ks) == 0 {
-		return "empty"
-	}
-	return strings.Join(ks, "+")
-}
-
 func runC37() int {
 	r := ev.Start("C37", ev.LevelExploration, 120*time.Second, 15*time.Minute)
 	ctx := context.Background()
@@ -625,7 +642,11 @@ func runC37() int {
 	for _, t := range ts {
 		sent, full := bindings(t)
 		for i := range sent {
-			for _, ov := range overrides(t.Resource) {
+			ovs := overrides(t.Resource)
+			if r.Thorough() {
+				ovs = withPairs(ovs)
+			}
+			for _, ov := range ovs {
 				for _, c := range cfgs {
 					cases = append(cases, &c37Case{t: t, bind: sent[i], full: full[i], ov: ov, cfg: c.cfg, cfgN: c.name})
 				}
@@ -778,7 +799,7 @@ func runC37() int {
 						}
 						continue
 					}
-					violation(fmt.Sprintf("%s:%s:tpl[%s]+req[%s]", phase, d, paramKeys(t.Params), paramKeys(cs.ov)), what, extra)
+					violation(fmt.Sprintf("%s:%s:%s", t.ID, phase, d), what, extra)
 					continue
 				}
 				total, pages := 0, len(got)
@@ -855,7 +876,7 @@ func runC37() int {
 		"templates":           len(ts),
 		"cases_per_history":   len(cases),
 		"per_template":        per,
-		"rule":                "a schema with 11 query templates (transactions ×4, accounts ×3, logs ×2, volumes ×2; string variables with ${…} interpolation, int, boolean and date variables, declared defaults, $in lists, $exists, $and/$or/$not bodies; template params pageSize, sort, endTime, expand, groupBy, insertionDate) is inserted through the real InsertSchema path at the end of each of 3 histories; then RunQuery is called for EVERY combination of the variable menus (each variable: 2–3 values, or left unbound when it has a default) × EVERY entry of the request-params menu (none, {}, pageSize, sort column/order, endTime, startTime, expand, groupBy, insertionDate, combinations) × two pagination configurations (default 15/max 100; default 4/max 10). Oracle: first page (entities with all expanded fields, page size, hasMore, presence of cursors) equals the direct List* call built by hand from the substituted filter and from defaults ⊕ template params ⊕ request params applied field by field; every page reached through the returned next cursors (and the previous cursor of the last page) equals the page reached through the direct call's cursors. distinct_nontrivial = distinct (template, binding, request params, config) whose result is non-empty and either a proper subset of the resource or multi-page, on some history",
+		"rule":                "a schema with 11 query templates (transactions ×4, accounts ×3, logs ×2, volumes ×2; string variables with ${…} interpolation, int, boolean and date variables, declared defaults, $in lists, $exists, $and/$or/$not bodies; template params pageSize, sort, endTime, expand, groupBy, insertionDate) is inserted through the real InsertSchema path at the end of each of 3 histories; then RunQuery is called for EVERY combination of the variable menus (each variable: 2–3 values, or left unbound when it has a default) × EVERY entry of the request-params menu (none, {}, pageSize, sort column/order, endTime, startTime, expand, groupBy, insertionDate, a combination; thorough: also the union of every two entries on disjoint parameters) × two pagination configurations (default 15/max 100; default 4/max 10). Oracle: first page (entities with all expanded fields, page size, hasMore, presence of cursors) equals the direct List* call built by hand from the substituted filter and from defaults ⊕ template params ⊕ request params applied field by field; every page reached through the returned next cursors (and the previous cursor of the last page) equals the page reached through the direct call's cursors. distinct_nontrivial = distinct (template, binding, request params, config) whose result is non-empty and either a proper subset of the resource or multi-page, on some history",
 		"samples":             samples.List(),
 		"exhaustive":          exhaustive,
 	}, []string{pgsimAssumption,
